@@ -236,7 +236,7 @@ edition = "2021"
         write_if_changed(os.path.join(self.root, "Cargo.toml"),
                          "[workspace]\nresolver = \"2\"\nmembers = [%s]\n" % members)
 
-    def build(self, timeout=1500, expand_timeout=60, jobs=None):
+    def build(self, timeout=1500, expand_timeout=60, jobs=None, keep_going=False):
         """Build all crates.  Returns (ok, diagnostics text).  A failure is data for the caller
         (generated code that does not compile, macro panic, hang), not a tool error."""
         self.finish_manifest()
@@ -248,6 +248,8 @@ edition = "2021"
         cmd = ["timeout", str(timeout), "cargo", "build", "--offline", "--message-format", "short"]
         if jobs:
             cmd += ["-j", str(jobs)]
+        if keep_going:
+            cmd += ["--keep-going"]
         t0 = time.time()
         cp = subprocess.run(cmd, cwd=self.root, env=env, capture_output=True, text=True)
         self.build_wall = time.time() - t0
